@@ -57,11 +57,19 @@ def run_shard(mod, tier, seed, i, n, partial_out=None, work=None):
             allst = mod.strata(tier)
             mine = allst[i::n]
             each = max(getattr(mod, 'MIN_PER_STRATUM', 4), n_ex // max(1, len(mine)))
+            t_shard = time.time()
             for j, (name, strat) in enumerate(mine):
                 run.seed = shard_seed(seed, i) * 131 + j
                 run.classes['stratum:' + name] += 0
+                left = None
+                if budget is not None:
+                    # the budget is for the whole shard: strata share it evenly, a stratum that ends early passes its share on
+                    left = (budget - (time.time() - t_shard)) / max(1, len(mine) - j)
+                    if left <= 0:
+                        run.inconclusive['time_budget_hit'] += 1
+                        break
                 core.hypothesis_search(run, strat, execute, triggers=triggers, max_examples=each,
-                                       shrink_budget_s=sb, time_budget_s=budget)
+                                       shrink_budget_s=sb, time_budget_s=left)
                 if run.violations:
                     break
         else:
